@@ -1277,6 +1277,8 @@ def _parse_Hamiltonian(H: Hamiltonian, n_dt: int, H_str: str) -> Tuple[Sequence[
     # Unzip the nested lists into operators and coefficient arrays. Since
     # identifiers are optional, we need to perform a check if they were given.
     opers, *args = zip_longest(*H, fillvalue=None)
+    if not args:
+        raise TypeError(f'Expected the items of {H_str} to be [operator, coefficients(, identifier)]')
     if len(args) == 1:
         coeffs = args[0]
         identifiers = None
